@@ -212,7 +212,7 @@ func c15World(t *testing.T, r *simcore.Run) any {
 	}
 	// Every sixth run uses the production wiring: timeservice.go's SCION reference clock (seven
 	// clients in interleaved mode, each with its Ntimed filter) asking a Pather for the paths.
-	wired := r.Index%6 == 5
+	wired := r.Index%6 == 5 && Root.NewNTPReferenceClockSCION != nil
 	if wired {
 		nclients = 7
 		r.Probe("wired-reference-clock")
